@@ -245,8 +245,8 @@ Proof.
         apply in_map_iff in Ht. destruct Ht as [e [<- He]].
         assert (Hin : In (strip e) (map strip fi)) by (apply in_map; exact He).
         split.
-        - unfold key_tuple, key_tuple_s, t_vec; simpl. apply Hvec, Hin.
-        - unfold key_tuple, key_tuple_s, t_time; simpl. apply Hmeta; [left; reflexivity | exact Hin]. }
+        - exact (Hvec _ Hin).
+        - exact (Hmeta k _ (or_introl eq_refl) Hin). }
       pose proof (chk_order_spec fi1 P S T V Hc HS HT Hlen1 HP HPs) as Hspec.
       destruct (chk_order fi1 P S (V * T) T V) as [fi2 r] eqn:E.
       destruct Hspec as [Hperm [Hr Hiff]].
